@@ -261,3 +261,28 @@ Definition three_template_prim (L : libm) (pts : list spoint) : res (spoint * sp
 Definition fit3_outcome (L : libm) (pts : list spoint) : N :=
   if (length pts <? 3)%nat then 2%N
   else match three_template_prim L pts with Ok _ => 1%N | Err _ => 0%N | Panic => 2%N end.
+
+(* ---------------- OPEN FINDING `tinyphi` (C14): recogniser of the class and the witness ---------------- *)
+(* the class: a cluster of at least 3 points, radii in [0.05, 0.25] m, every |phi| <= 1e-160 rad (so the cluster is
+   straight to better than 1e-155 m) and not all phi equal to zero.  On this class hypothesis (N3) of
+   C14_fit_skeleton_total is FALSE of the implementation: unless the points are exactly collinear the initial circle has
+   a radius > 1e154 m and closest_t evaluates 4 pi^2 r R / h^2 = inf / inf. *)
+Definition tinyphi_class (pts : list spoint) : bool :=
+  (3 <=? length pts)%nat
+  && forallb (fun p => (abs (sp_phi p) <=? 0x1p-532) && (0x1.999999999999ap-5 <=? sp_r p) && (sp_r p <=? 0.25)) pts
+  && negb (forallb (fun p => sp_phi p =? 0) pts).
+(* the corpus witness corpus/C14/tinyphi.case: (r, phi, z) = (0.11, 1e-165, 0), (0.15, -2e-165, 0.1), (0.19, 3.5e-165, 0.2) *)
+Definition tinyphi_witness : list spoint :=
+  [ mk_spoint 0x1.c28f5c28f5c29p-4 0x1.d7becc2f23ac2p-549 0;
+    mk_spoint 0x1.3333333333333p-3 (-0x1.d7becc2f23ac2p-548) 0x1.999999999999ap-4;
+    mk_spoint 0x1.851eb851eb852p-3 0x1.9ce6e2e996da9p-547 0x1.999999999999ap-3 ].
+(* the initial guess the fit computes for it (logged from the implementation): x0, y0, z0, r, phi0, h *)
+Definition tinyphi_guess : helix :=
+  mk_helix 0x1.22aac41631602p-3 0x1.4b11df37d1454p+538 0x1.999999999999ap-4 0x1.4b11df37d1454p+538
+           (-0x1.921fb54442d18p+0) 0x1.4506eb513f39cp+542.
+(* a libm that agrees with a correctly rounded one on the three calls that matter for the first witness point:
+   cos(1e-165) = 1, sin(1e-165) = 1e-165, hypot(a, b) = |b| for |a| < 1 <= 1e100 <= |b|; the other calls
+   (atan2, floor, sin E, cos E) cannot change the outcome because e is already NaN *)
+Definition tinyphi_libm : libm :=
+  {| lsin := fun x => x; lcos := fun _ => 1; latan2 := fun _ _ => - 0x1.921fb54442d18p+0;
+     lhypot := fun _ b => abs b; lfloor := fun x => x |}.
